@@ -28,7 +28,7 @@ CallTarget = Union[Func, Class, str, Unresolved]
 class Resolver:
     def __init__(self, index: Index):
         self.ix = index
-        self._env_cache: Dict[str, Dict[str, Set[Class]]] = {}
+        self._env_cache: Dict[tuple, Dict[str, Set[Class]]] = {}
         self._byname: Dict[str, List[Func]] = {}
         for f in index.funcs.values():
             if f.cls is not None and f.parent is None:
@@ -76,18 +76,20 @@ class Resolver:
         return set()
 
     # ---------------------------------------------------------------- local env
-    def env(self, func: Func) -> Dict[str, Set[Class]]:
-        """Flow-insensitive local variable -> possible repo classes."""
-        if func.qualname in self._env_cache:
-            return self._env_cache[func.qualname]
+    def env(self, func: Func, strong: bool = False) -> Dict[str, Set[Class]]:
+        """Flow-insensitive local variable -> possible repo classes.  `strong` ignores
+        annotations (parameters, returns), which are unreliable in parts of this repo."""
+        key = (func.qualname, strong)
+        if key in self._env_cache:
+            return self._env_cache[key]
         env: Dict[str, Set[Class]] = {}
-        self._env_cache[func.qualname] = env
+        self._env_cache[key] = env
         mod = func.module
         if func.parent is not None:
-            for k, v in self.env(func.parent).items():
+            for k, v in self.env(func.parent, strong).items():
                 env[k] = set(v)
         for p in func.all_params:
-            cs = self.classes_of_annotation(mod, p.annotation, func)
+            cs = self.classes_of_annotation(mod, p.annotation, func) if not strong else set()
             if cs:
                 env[p.arg] = cs
         if func.self_name and func.cls is not None:
@@ -98,24 +100,26 @@ class Resolver:
         for _ in range(2):
             for n in own_nodes(func.node):
                 if isinstance(n, ast.Assign) and len(n.targets) == 1 and isinstance(n.targets[0], ast.Name):
-                    cs = self.expr_classes(func, n.value, env)
+                    cs = self.expr_classes(func, n.value, env, strong)
                     if cs:
                         env.setdefault(n.targets[0].id, set()).update(cs)
                 elif isinstance(n, ast.AnnAssign) and isinstance(n.target, ast.Name):
-                    cs = self.classes_of_annotation(mod, n.annotation, func)
+                    cs = self.classes_of_annotation(mod, n.annotation, func) if not strong else set()
                     if cs:
                         env.setdefault(n.target.id, set()).update(cs)
                 elif isinstance(n, (ast.For, ast.comprehension)) and isinstance(n.target, ast.Name):
-                    cs = self.iter_elem_classes(func, n.iter, env)
+                    cs = self.iter_elem_classes(func, n.iter, env, strong)
                     if cs:
                         env.setdefault(n.target.id, set()).update(cs)
                 elif isinstance(n, ast.withitem) and isinstance(n.optional_vars, ast.Name):
-                    cs = self.expr_classes(func, n.context_expr, env)
+                    cs = self.expr_classes(func, n.context_expr, env, strong)
                     if cs:
                         env.setdefault(n.optional_vars.id, set()).update(cs)
         return env
 
-    def iter_elem_classes(self, func: Func, it: ast.AST, env) -> Set[Class]:
+    def iter_elem_classes(self, func: Func, it: ast.AST, env, strong=False) -> Set[Class]:
+        if strong:
+            return set()
         if isinstance(it, ast.Name):
             ann = func.param_annotation(it.id)
             if ann is not None:
@@ -128,10 +132,10 @@ class Resolver:
                     return self.elem_classes_of_annotation(m.module, m.node.returns, m)
         return set()
 
-    def expr_classes(self, func: Func, e: ast.AST, env=None) -> Set[Class]:
+    def expr_classes(self, func: Func, e: ast.AST, env=None, strong=False) -> Set[Class]:
         """Possible repo classes of the value of expression `e` (empty = unknown)."""
         if env is None:
-            env = self.env(func)
+            env = self.env(func, strong)
         mod = func.module
         if isinstance(e, ast.Name):
             g = self.guard_classes(func, e)
@@ -143,28 +147,31 @@ class Resolver:
             # copy.copy(x) / copy.deepcopy(x) keep the class
             dn = dotted(fn) or ""
             if dn in ("copy.copy", "copy.deepcopy", "deepcopy") and e.args:
-                return self.expr_classes(func, e.args[0], env)
+                return self.expr_classes(func, e.args[0], env, strong)
             out: Set[Class] = set()
-            for t in self.resolve_call(func, e, env):
+            for t in self.resolve_call(func, e, env, by_name=False):
                 if isinstance(t, Class):
                     out.add(t)
                 elif isinstance(t, Func):
                     if t.name == "copy" and t.cls is not None and isinstance(fn, ast.Attribute):
-                        out |= self.expr_classes(func, fn.value, env)
-                    out |= self.classes_of_annotation(t.module, t.node.returns, t)
+                        out |= self.expr_classes(func, fn.value, env, strong)
+                    if not strong:
+                        out |= self.classes_of_annotation(t.module, t.node.returns, t)
             return out
         if isinstance(e, ast.Attribute):
             out = set()
+            if strong:
+                return out
             for c in self.expr_classes(func, e.value, env):
                 m = c.lookup(e.attr)
                 if m is not None and m.kind == "property":
                     out |= self.classes_of_annotation(m.module, m.node.returns, m)
             return out
         if isinstance(e, ast.IfExp):
-            return self.expr_classes(func, e.body, env) | self.expr_classes(func, e.orelse, env)
+            return self.expr_classes(func, e.body, env, strong) | self.expr_classes(func, e.orelse, env, strong)
         if isinstance(e, ast.Subscript):
             # element of an annotated list parameter / property
-            return self.iter_elem_classes(func, e.value, env)
+            return self.iter_elem_classes(func, e.value, env, strong)
         return set()
 
     # ------------------------------------------------------------------- guards
